@@ -142,7 +142,19 @@ func main() {
 					"name": string(c.Name), "repeater": c.Repeater, "dwell400ms": c.Dwell, "channel": ch, "uplink_frequency": upf, "observed_index": oIdx, "observed_frequency": oFreq}})
 		}
 		// frequencies that are not uplink channels
-		for _, f := range []uint32{0, 1, 868100001, 902300000 - 200000, 923300000, 470300000 + 96*200000, 0xffffffff, r.U32()} {
+		probes := []uint32{0, 1, 868100001, 902300000 - 200000, 923300000, 470300000 + 96*200000, 0xffffffff, r.U32()}
+		if !c.Alias || thorough {
+			// frequencies next to the first, second and last uplink channel (the function is total on uint32;
+			// "same frequency" regions must return exactly the argument, also 1 Hz beside a channel)
+			for _, ch := range []int{0, 1, n - 1} {
+				if u, err := b.GetUplinkChannel(ch); err == nil && (ch < 2 || n > 2) {
+					for _, d := range []uint32{1, 100, 500, 999, 1000, 1001} {
+						probes = append(probes, u.Frequency+d, u.Frequency-d)
+					}
+				}
+			}
+		}
+		for _, f := range probes {
 			f := f
 			o := oz(func() (int64, error) { v, err := b.GetRX1FrequencyForUplinkFrequency(f); return int64(v), err })
 			s.Add(cases.Case{Term: fmt.Sprintf("CRx1Freq %d %s %s", c.Index, cq.Z(int64(f)), o),
